@@ -15,7 +15,7 @@ CLEAR_CACHES_EVERY = 300
 RULE = (
     "Functions are synthesised with exec: 1-5 parameters, each positional-only / positional-or-keyword / "
     "keyword-only (legal orders), body = sum of c_i*p_i with distinct irrational-like c_i plus a product term, "
-    "output scalar / tuple / dict. Sub-checks: productmap(f, ordered subset), vmap_1d(f, subset), spacemap(f, "
+    "output scalar / tuple / dict / length-4 vector / dict with a scalar and a vector leaf (non-scalar leaves: the mapped axes must come before the leaf's own dimensions). Sub-checks: productmap(f, ordered subset), vmap_1d(f, subset), spacemap(f, "
     "dense, sparse, put_dense_first in {True,False}) with pairwise distinct array lengths 2..6, compared with Python "
     "nested loops (axes follow the LISTED order; joint map pairs elements; joint axis first/last as requested; every "
     "pytree leaf); wrappers allow_only_kwargs / allow_args / convert_kwargs_to_args / all_as_kwargs / all_as_args / "
@@ -40,7 +40,7 @@ def signatures(draw, nmin=1, nmax=5):
     n_po = draw(st.integers(0, n))
     n_kw = draw(st.integers(0, n - n_po))
     kinds = ["po"] * n_po + ["pk"] * (n - n_po - n_kw) + ["kw"] * n_kw
-    return {"names": list(names), "kinds": kinds, "out": draw(st.sampled_from(["scalar", "tuple", "dict"]))}
+    return {"names": list(names), "kinds": kinds, "out": draw(st.sampled_from(["scalar", "tuple", "dict", "vector", "dict_vec"]))}
 
 
 @st.composite
@@ -99,9 +99,15 @@ def make_func(sig, xp_name="jnp"):
     prod = " * ".join(f"({n} + {i + 1}.5)" for i, n in enumerate(names))
     e1 = f"{lin} + 0.01 * {prod}"
     e2 = " - ".join(f"{COEF[(NAMES.index(n) + 2) % 5]!r} * {n}" for n in names)
-    body = {"scalar": e1, "tuple": f"({e1}, {e2})", "dict": f"{{'u': {e1}, 'v': {e2}}}"}[sig["out"]]
+    # non-scalar leaves: a length-4 vector (4 = the joint-map length, so that a misplaced
+    # axis is not always visible in the shape and must be caught by values)
+    vec = f"xp.stack([{e1}, {e2}, 2.0 * ({e1}), ({e2}) - 1.0])"
+    body = {"scalar": e1, "tuple": f"({e1}, {e2})", "dict": f"{{'u': {e1}, 'v': {e2}}}",
+            "vector": vec, "dict_vec": f"{{'u': {e1}, 'w': {vec}}}"}[sig["out"]]
     src = f"def f({', '.join(parts)}):\n    return {body}\n"
-    ns = {}
+    import jax.numpy as jnp
+
+    ns = {"xp": jnp}
     exec(src, ns)  # noqa: S102
     return ns["f"], src
 
@@ -162,14 +168,14 @@ def check_map(case):
     ref0 = leaves(call_by_name(f, sig, scal))
     if len(got_leaves) != len(ref0):
         return [f"pytree structure differs: {type(got).__name__}"], False
-    exp = [np.zeros(shape) for _ in ref0]
+    exp = [np.zeros(shape + np.shape(np.asarray(r))) for r in ref0]
     for idx in itertools.product(*[range(s) for s in shape]):
         point = dict(scal)
         for group, i in zip(axes, idx):
             for n in group:
                 point[n] = arrs[n][i]
         for e, v in zip(exp, leaves(call_by_name(f, sig, point))):
-            e[idx] = v
+            e[idx] = np.asarray(v)
     for li, (gl, el) in enumerate(zip(got_leaves, exp)):
         if gl.shape != el.shape:
             msgs.append(f"{kind}({mapped}) leaf {li}: shape {gl.shape}, nested loops give {el.shape}")
@@ -217,7 +223,7 @@ def check_wrap(case):
     kw = {n: vals[n] for n in case["kw_order"]}
 
     def same(x):
-        return len(leaves(x)) == len(exp) and all(float(a) == float(b) for a, b in zip(leaves(x), exp))
+        return len(leaves(x)) == len(exp) and all(np.array_equal(np.asarray(a), np.asarray(b)) for a, b in zip(leaves(x), exp))
 
     # allow_only_kwargs
     g = call_lcm(allow_only_kwargs, f)
